@@ -354,3 +354,103 @@ Proof.
     unfold burn_and_pool in G. cbn [credits credit debits debit paid c_denom c_amount] in G.
     rewrite !N.eqb_refl, ?N1, N2, N3 in G. cbn in G. clear - G. lia.
 Qed.
+
+(* ---------- the contract's own balance ---------- *)
+
+(* a site never draws on what the contract held before the call: for an ARBITRARY balance
+   sheet b, whatever the contract holds in any denom before an accepted call is still
+   there afterwards (it can only grow, by what was paid above the fee) *)
+Lemma site_prior_balance_untouched s self payer funds b b' :
+  site_rate_ok s -> self <> payer ->
+  site_world s self payer funds b = Ok b' ->
+  forall d, bal_get b self d <= bal_get b' self d.
+Proof.
+  intros Hr Hne H d. destruct (site_world_balances _ _ _ _ _ _ H) as [ms [Hm [G _]]].
+  specialize (G self d). pose proof (site_funded_by_payment _ _ _ _ Hr Hm d) as Fd.
+  rewrite N.eqb_refl in G. apply N.eqb_neq in Hne. rewrite Hne in G.
+  remember (bal_get b' self d) as x. remember (bal_get b self d) as y.
+  remember (debits ms d) as u. remember (paid funds d) as v. remember (credits ms self d) as w.
+  clear - G Fd. lia.
+Qed.
+
+(* what the site rejects it rejects whatever anybody holds *)
+Lemma site_world_rejects s self payer funds b :
+  site_msgs s self funds = Err -> site_world s self payer funds b = Err.
+Proof. unfold site_world. intros ->. reflexivity. Qed.
+
+Lemma may_pay_must_pay_bad funds d F :
+  (may_pay funds d = Err \/ exists p, may_pay funds d = Ok p /\ p < F) ->
+  (must_pay funds d = Err \/ exists p, must_pay funds d = Ok p /\ p < F).
+Proof.
+  intros Hbad. destruct (must_pay funds d) as [q|] eqn:Hq; [ | left; reflexivity ].
+  right. exists q. split; [ reflexivity | ]. pose proof (must_pay_may_pay _ _ _ Hq) as Hm.
+  destruct Hbad as [He | [p [Hp Hlt]]]; rewrite Hm in *; [ discriminate | ].
+  injection Hp as <-. exact Hlt.
+Qed.
+
+Lemma wl_creation_fee_spelled k ml : wl_creation_fee k ml = (ml + 999) / 1000 * 100000000.
+Proof. destruct k; reflexivity. Qed.
+
+Lemma wl_upgrade_fee_spelled k o n :
+  wl_upgrade_fee k o n = ((n + 999) / 1000 - (o + 999) / 1000) * 100000000.
+Proof.
+  unfold wl_upgrade_fee, thousands.
+  assert (P : wl_price_per_1000 k = 100000000) by (destruct k; reflexivity). rewrite P.
+  destruct ((o + 999) / 1000 <? (n + 999) / 1000) eqn:E; [ reflexivity | ].
+  apply N.ltb_ge in E.
+  assert (Z : (n + 999) / 1000 - (o + 999) / 1000 = 0) by (apply N.sub_0_le; exact E).
+  rewrite Z. reflexivity.
+Qed.
+
+(* the native fee F of every fair-burn site, with the documented numbers *)
+Definition site_native_fee (s : site) (F : N) : Prop :=
+  match s with
+  | SCreate _ fd _ fee => fd = NATIVE /\ F = fee
+  | SShuffle fee => F = fee
+  | SWlCreate _ ml => F = (ml + 999) / 1000 * 100000000
+  | SWlIncrease _ old new => F = ((new + 999) / 1000 - (old + 999) / 1000) * 100000000
+  | SWlMerkleCreate _ => F = 1000000000
+  | SEnableUpdatable => F = 1500000000
+  | SAirdropInit => F = 100000000
+  | SBaseMint price bps => F = price * bps / 10000
+  | SMint _ _ _ _ => False
+  end.
+
+Lemma underpayment_rejected_whatever_held s self payer funds b F :
+  site_native_fee s F ->
+  (may_pay funds NATIVE = Err \/ exists p, may_pay funds NATIVE = Ok p /\ p < F) ->
+  site_world s self payer funds b = Err.
+Proof.
+  intros HF Hbad. apply site_world_rejects.
+  destruct s; cbn [site_msgs site_native_fee] in *.
+  - destruct HF as [-> ->]. apply creation_rejects. apply may_pay_must_pay_bad. exact Hbad.
+  - subst F. apply fair_burn_site_rejects. exact Hbad.
+  - subst F. unfold site_wl_create. rewrite wl_creation_fee_spelled. apply fair_burn_site_rejects. exact Hbad.
+  - subst F. unfold site_wl_increase.
+    destruct ((new <=? old) || (wl_max_members k <? new)); [ reflexivity | ].
+    rewrite wl_upgrade_fee_spelled. apply fair_burn_site_rejects. exact Hbad.
+  - subst F. unfold site_wl_merkle_create.
+    destruct tiered; apply fair_burn_site_rejects; exact Hbad.
+  - subst F. apply fair_burn_site_rejects. exact Hbad.
+  - subst F. rewrite airdrop_init_cases.
+    destruct (may_pay_must_pay_bad _ _ _ Hbad) as [He | [p [Hp Hlt]]].
+    + rewrite He. reflexivity.
+    + rewrite Hp. apply N.ltb_lt in Hlt. rewrite Hlt. reflexivity.
+  - subst F. apply fair_burn_site_rejects. exact Hbad.
+  - contradiction.
+Qed.
+
+(* a mint is paid exactly, in the denom of the price, whatever the minter holds *)
+Lemma mint_inexact_rejected_whatever_held k d price bps self payer funds b :
+  (may_pay funds d = Err \/ exists p, may_pay funds d = Ok p /\ p <> price) ->
+  site_world (SMint k d price bps) self payer funds b = Err.
+Proof.
+  intros Hbad. apply site_world_rejects. cbn [site_msgs]. rewrite mint_site_cases.
+  destruct Hbad as [-> | [p [-> Hne]]]; [ reflexivity | ].
+  apply N.eqb_neq in Hne. rewrite Hne. reflexivity.
+Qed.
+
+Lemma creation_rejects_whatever_held k self payer fd md F funds b :
+  (must_pay funds fd = Err \/ exists p, must_pay funds fd = Ok p /\ p < F) ->
+  site_world (SCreate k fd md F) self payer funds b = Err.
+Proof. intros H. apply site_world_rejects. cbn [site_msgs]. apply creation_rejects. exact H. Qed.
